@@ -27,4 +27,5 @@ INVARIANT SameOrderSeq
 INVARIANT SeqGapless
 INVARIANT CausalTs
 INVARIANT IdsUnique
+INVARIANT UnitsWellFormed
 CHECK_DEADLOCK FALSE
